@@ -25,6 +25,11 @@ type ReadOptions struct {
 
 	StartNanos uint64
 	EndNanos   uint64
+
+	// endUnbounded is set by Reader.Messages when no end bound has been given. EndNanos is an
+	// exclusive bound, so without this flag a message logged at math.MaxUint64 could never be
+	// selected, even by a read with no time restriction at all.
+	endUnbounded bool
 }
 
 func (ro *ReadOptions) Finalize() {
@@ -62,6 +67,7 @@ func Before(end int64) ReadOpt {
 			return fmt.Errorf("end cannot come before start")
 		}
 		ro.End = end
+		ro.endUnbounded = false
 		return nil
 	}
 }
@@ -84,6 +90,7 @@ func BeforeNanos(end uint64) ReadOpt {
 			return fmt.Errorf("end cannot come before start")
 		}
 		ro.EndNanos = end
+		ro.endUnbounded = false
 		return nil
 	}
 }
